@@ -980,5 +980,32 @@ def oracle(scn, S):
         S.rm_dir(d)
 
 
+def fixed_scenarios(S, tier, seed):
+    """Always-run two-input invocations (per-file decoder state must not leak into the next file): every ordered pair of
+    {valid .lz, .lzma + trailing garbage, .lzma + trailing .xz, valid .lzma, valid .xz, .xz + garbage} x {xz -dc, xz -t, xz -d}."""
+    plain = [["d", 1, 5, 0]]
+    kinds = []
+    if REPO_LZ:
+        kinds.append({"kind": "repo", "names": [sorted(f for f in REPO_LZ if f.startswith("good-1-v1"))[0] if any(f.startswith("good-1-v1") for f in REPO_LZ) else REPO_LZ[0]], "corrupt": None})
+    kinds += [{"kind": "lzma", "plain": plain, "tail": "garbage", "corrupt": None}, {"kind": "lzma", "plain": plain, "tail": "xz", "corrupt": None},
+              {"kind": "lzma", "plain": plain, "tail": "", "corrupt": None},
+              {"kind": "xz", "streams": [{"plain": plain, "bs": 0, "check": "crc32", "ct": 1, "preset": 0, "pad": 0}], "corrupt": None}]
+    def run(tool):
+        return {"sink": {"kind": "pipe"}, "T": None, "no_sparse": False, "single_stream": False, "ignore_check": False, "no_warn": False, "stdin": False,
+                "keep": False, "quiet": 0, "format": None, "tool": tool, "force": False}
+    for a in kinds:
+        for b in kinds:
+            if a is b:
+                continue
+            scn = {"part": "dec", "inputs": [a, b], "runs": [run("xz-dc"), run("xz-t"), run("xz-d")]}
+            S.evaluations += 1
+            S.count("fixed_two_input_scenarios")
+            try:
+                oracle(scn, S)
+            except base.Violation as v:
+                v.scenario = scn
+                raise
+
+
 if __name__ == "__main__":
-    raise SystemExit(base.main("c18", scenarios, oracle, budgets={"quick": 800, "thorough": 10000}))
+    raise SystemExit(base.main("c18", scenarios, oracle, budgets={"quick": 800, "thorough": 10000}, extra_runs=fixed_scenarios))
